@@ -284,10 +284,12 @@ def run(pid, tier, out):
             if len(samples) < 4:
                 samples.append({'scenario': scn.to_json(), 'schedule': list(used), 'statuses': list(sts)})
             for kind, text in my_oracle(pid, scn, obs, dump):
-                if kind == 'nonserializable' and known_pattern(scn, obs) and pid in ('C06', 'C07'):
+                # the two recorded consumer-generation findings belong to C06 / C07; under C05 (provider generations)
+                # such a schedule is not a violation of the property and is not reported at all
+                if kind == 'nonserializable' and known_pattern(scn, obs):
                     known[(pid, 'success-on-consumer-created-by-failed-request')] += 1
                     continue
-                if kind in ('nonserializable', 'at-most-one') and double_wipe(scn, obs) and pid in ('C06', 'C07'):
+                if kind in ('nonserializable', 'at-most-one') and double_wipe(scn, obs):
                     known[(pid, 'double-wipe')] += 1
                     continue
                 viols.append(({'kind': 'schedule', 'scenario': scn.to_json(), 'schedule': list(used),
